@@ -29,7 +29,7 @@ fn exec(c: &Case) -> Outs {
 
 // ---------------- parse oracle ----------------
 
-pub use vcore::lit::{round_literal, tokenise, Parsed};
+pub use vcore::lit::{limb_carry_fraction, LIMB_GROUPS, round_literal, tokenise, Parsed};
 
 /// The library's wording of the overflow error is not part of the property (the error's kind is private);
 /// it is learned from a literal that can only be an overflow ("256" as U8F0) and must differ from the wording
@@ -292,6 +292,25 @@ fn near_short_decimal(l: L, r1: u128, r2: u128) -> u128 {
     l.wrap(&r.add_i64(delta))
 }
 
+
+/// a value whose shortest decimal form is a limb-boundary fraction (for the print / parse-back round trip)
+fn limb_carry_value(l: L, r1: u128, r2: u128) -> u128 {
+    let maxd = (l.f as usize * 30103 / 100000).saturating_sub(1);
+    let (p, _) = LIMB_GROUPS[(r1 % 6) as usize];
+    if maxd <= p as usize {
+        return near_short_decimal(l, r1, r2);
+    }
+    let ns = 1 + (r2 >> 32) as usize % (maxd - p as usize).min(27);
+    let suffix: Vec<u8> = (0..ns).map(|i| ((r2 >> (4 * (i % 30))) % 10) as u8).collect();
+    let fs = limb_carry_fraction(r1, &suffix, ns);
+    let ip = if l.int_bits() > 8 { (r2 >> 100) % 40 } else { 0 };
+    let mut all = ip.to_string().into_bytes();
+    all.extend_from_slice(fs.as_bytes());
+    let num = Big::from_digits(&all, 10);
+    let (r, _) = round_literal((r2 >> 20) & 1 == 1 && l.signed, &num, fs.len() as u32, 10, l.f);
+    l.wrap(&r)
+}
+
 fn precision_from(sel: usize, r: u128, l: L) -> Option<usize> {
     match sel % 8 {
         0 | 1 | 2 => None,
@@ -319,11 +338,22 @@ impl Engine for Text {
         match prop {
             "C08" => {
                 let digits = prop_oneof![4 => vec(0u8..16, 0..10), 2 => vec(0u8..16, 0..45), 1 => vec(0u8..16, 0..230)];
-                (layout_or(stratum), pick(4), pick(10), ing(), any::<u128>(), digits.clone(), digits, (any::<u16>(), any::<u8>(), pick(22)))
+                (layout_or(stratum), pick(4), pick(11), ing(), any::<u128>(), digits.clone(), digits, (any::<u16>(), any::<u8>(), pick(22)))
                     .prop_map(|(lay, ri, mode, ia, sel, di, df, (pos, kind, ch))| {
                         let l = L::from_idx(lay as usize);
-                        let radix = RADICES[ri];
+                        let radix = if mode == 10 { 10 } else { RADICES[ri] };
                         let s = match mode {
+                            // decimal digit groups on a limb boundary of the parser's accumulator
+                            10 => {
+                                let a = pattern(l, ia);
+                                let ip = match (sel >> 60) % 3 {
+                                    0 => Big::zero(),
+                                    1 => l.val(a).abs().shr_floor(l.f),
+                                    _ => Big::from_u64(((sel >> 64) % 9) as u64),
+                                };
+                                let sign = ["", "", "-", "+"][((sel >> 70) & 3) as usize];
+                                format!("{}{}.{}", sign, ip.to_digits(10), limb_carry_fraction(sel, &df, 40))
+                            }
                             // grammar literal
                             0 | 1 => {
                                 let sign = ["", "", "-", "+"][(sel & 3) as usize];
@@ -383,11 +413,12 @@ impl Engine for Text {
                     })
                     .boxed()
             }
-            "C09" => (layout_or(stratum), pick(6), ing(), pick(4), any::<u128>(), any::<u128>(), (pick(NCOMBO), pick(8), pick(4)))
+            "C09" => (layout_or(stratum), pick(6), ing(), pick(5), any::<u128>(), any::<u128>(), (pick(NCOMBO), pick(8), pick(4)))
                 .prop_map(|(lay, tr, ia, amode, r1, r2, (combo, psel, wsel))| {
                     let l = L::from_idx(lay as usize);
                     let a = match amode {
                         0 | 1 => pattern(l, ia),
+                        4 => limb_carry_value(l, r1, r2),
                         _ => near_short_decimal(l, r1, r2),
                     };
                     let prec = precision_from(psel, r1 >> 64, l);
